@@ -52,7 +52,39 @@ var (
 	fDoneDelay   = flag.Int("done-exit-delay-ms", 30, "delay between reaching the final state and exiting")
 	fTransDelay  = flag.Int("transition-delay-ms", 0, "time every transition takes")
 	fNoise       = flag.Bool("noise", false, "write a few lines on stdout/stderr")
+	fDieByKill   = flag.Bool("die-by-kill", false, "--die-on / --hang-getstate deaths are a SIGKILL to itself instead of exit(exit-code)")
+	fDieDelay    = flag.Int("die-delay-ms", 0, "delay between the triggering request and the death")
+	fHangGet     = flag.Bool("hang-getstate", false, "after the idle state was reported once, GetState never answers; the first such call triggers the death")
+	fWrap        = flag.Bool("wrap", false, "be a wrapper (task leader) around the device: the OCC server runs in a forked child of the same group; "+
+		"deaths hit the WRAPPER while the device stays alive and keeps its connection open")
+	fWrapped = flag.Bool("wrapped", false, "internal: the device forked by --wrap")
 )
+
+// die ends the process the way the flags say: exit(exit-code) or SIGKILL to itself.
+func dieNow() {
+	if *fDieByKill {
+		_ = syscall.Kill(os.Getpid(), syscall.SIGKILL)
+		time.Sleep(time.Second)
+	}
+	os.Exit(*fExitCode)
+}
+
+// triggerDeath is called by the device when a request that must be fatal arrives. Plain device: it
+// dies itself (after --die-delay-ms). Wrapped device: it tells the wrapper (the process the executor
+// waits for) to die and stays alive, never answering the request.
+func triggerDeath() {
+	go func() {
+		time.Sleep(time.Duration(*fDieDelay) * time.Millisecond)
+		if *fWrapped {
+			_ = syscall.Kill(os.Getppid(), syscall.SIGUSR1)
+			return
+		}
+		dieNow()
+	}()
+	select {}
+}
+
+var deathOnce sync.Once
 
 func announce(role string) {
 	p := os.Getenv("VERIF_C17_PIDFILE")
@@ -98,12 +130,13 @@ var directTable = map[edge]string{
 
 type server struct {
 	pb.UnimplementedOccServer
-	mu      sync.Mutex
-	state   string
-	ready   bool
-	final   string
-	doneCh  chan struct{}
-	started time.Time
+	mu        sync.Mutex
+	state     string
+	ready     bool
+	readySeen bool // the idle state has been reported by a GetState
+	final     string
+	doneCh    chan struct{}
+	started   time.Time
 }
 
 func (s *server) current() string {
@@ -122,13 +155,26 @@ func (s *server) current() string {
 }
 
 func (s *server) GetState(ctx context.Context, _ *pb.GetStateRequest) (*pb.GetStateReply, error) {
-	return &pb.GetStateReply{State: s.current(), Pid: int32(os.Getpid())}, nil
+	st := s.current()
+	if *fHangGet {
+		s.mu.Lock()
+		hang := s.readySeen
+		if s.ready {
+			s.readySeen = true
+		}
+		s.mu.Unlock()
+		if hang {
+			deathOnce.Do(func() { go triggerDeath() })
+			select {} // never answers
+		}
+	}
+	return &pb.GetStateReply{State: st, Pid: int32(os.Getpid())}, nil
 }
 
 func (s *server) Transition(ctx context.Context, req *pb.TransitionRequest) (*pb.TransitionReply, error) {
 	evt := req.GetTransitionEvent()
 	if *fDieOn != "" && evt == *fDieOn {
-		os.Exit(*fExitCode)
+		triggerDeath() // never returns
 	}
 	if *fHangOn != "" && evt == *fHangOn {
 		select {} // never answers; the RPC ends when the process dies
@@ -177,6 +223,9 @@ func main() {
 	if *fSleeper {
 		role = "grandchild"
 	}
+	if *fWrapped {
+		role = "device"
+	}
 	announce(role)
 
 	switch {
@@ -194,6 +243,36 @@ func main() {
 	if *fSleeper {
 		time.Sleep(10 * time.Minute)
 		return
+	}
+
+	if *fWrap {
+		// the wrapper: forks the device (same group, inherited pipes), dies on SIGUSR1 the way the
+		// flags say, otherwise ends with the device's exit code
+		usr := make(chan os.Signal, 1)
+		signal.Notify(usr, syscall.SIGUSR1)
+		var args []string
+		for _, a := range os.Args[1:] {
+			if a != "--wrap" {
+				args = append(args, a)
+			}
+		}
+		dev := exec.Command(os.Args[0], append(args, "--wrapped")...)
+		dev.Stdout, dev.Stderr = os.Stdout, os.Stderr
+		if err := dev.Start(); err != nil {
+			fmt.Fprintln(os.Stderr, "fakeocc: cannot fork the device:", err)
+			os.Exit(98)
+		}
+		done := make(chan error, 1)
+		go func() { done <- dev.Wait() }()
+		select {
+		case <-usr:
+			dieNow()
+		case err := <-done:
+			if ee, ok := err.(*exec.ExitError); ok {
+				os.Exit(ee.ExitCode() & 0xff)
+			}
+			os.Exit(0)
+		}
 	}
 
 	if *fGrandchild != "none" {
